@@ -352,7 +352,7 @@ theorem settle_inv {x : Option Nat} {w : World} (h : WInvX x w) {e : Ent} (he : 
     rw [a2] at hcd; injection hcd with hcd; subst hcd
     exact (h.connReq cr c' d' a1 a2 a3).2 e he hd
   · intro p pr cr c hp' hcq hc hcd
-    have hnf := h.connReqLive p pr cr c d hp' hcq hc hcd
+    have hnf := (h.connReqLive p pr cr c hp' hcq hc).2 d hcd
     exact (h.connReq cr c d hc hcd hnf).2 e he hd
 
 /-- MQTTProtocol.handlePUBACK on a connected, live protocol: no exception, invariant preserved -/
